@@ -340,7 +340,8 @@ func main() {
 	r := run
 	r.SetRule("harness A: a case = (message lengths, frame policy, segmentation incl. every single cut offset of base streams, idle periods, caller buffer sizes); " +
 		"non-trivial = distinct (message length classes, segmentation, idle mode, buffer class, cut offset). harness B: pair-verify handovers on a real transport under " +
-		"four schedules (natural, late abort, late background read, late activation) each followed by three back-to-back encrypted requests")
+		"four schedules (natural, late abort, late background read, late activation) each followed by three back-to-back encrypted requests. harness N: 2..4 encrypted connections of one process alive at the same time " +
+		"after 1..2 earlier ones were used and closed (once / twice / close-read-close / three times), segments interleaved across the connections, each followed by reads until that connection reports a timeout; per connection prefix, no error, no lost bytes")
 	r.Assume("refctl framing follows the specification; the scripted connection never disconnects (timeouts only)")
 	rnd := r.Rand("c07a")
 
@@ -407,6 +408,10 @@ func main() {
 	}
 	r.Floor("scripts", caseNo, 3000)
 	r.Floor("idle_periods_injected", int(r.Counter("idle_periods_injected")), 1000)
+
+	r.Guard("harness N", func() { neighbours(r) })
+	r.Floor("neighbour_rounds_completed+violations", int(r.Counter("neighbour_rounds_completed"))+r.ViolationCount(), r.Pick(150, 3000)*9/10)
+	r.Floor("neighbour close variants", r.DistinctN("neighbour_close_variant"), 4)
 
 	pendingReadHandovers(r, rnd)
 	handover(r)
